@@ -5,10 +5,20 @@
    mk_disjunctive_clause are step-faithful node chains.  Extraction (Model/Paths.v): to_dnf = clauses of the
    root-to-1 paths in DFS order, to_cnf = root-to-0 paths with inverted literals.  to_optimized_dnf is a heuristic and
    is NOT modelled: every list it returns is validated at run time with the proved constructor
-   (C10_optimized_dnf_checked is the soundness of that check). *)
+   (C10_optimized_dnf_checked is the soundness of that check).
+
+   The library's OWN algorithms are inside the model as well (Model/Dnf.v, proofs in Proofs/DnfSem.v) and are what the
+   correspondence driver reports (the fold / DFS-list models are recomputed alongside; a difference on in-range clauses /
+   a wfb operand is the hard error BAD:dnf-models-disagree):  mk_dnf_faithful / mk_cnf_faithful = the recursion on the
+   variable index with the three-way split (dont_care / has_true / has_false), the duplicate-clause assert_eq!, the
+   `dont_care.or(&has_true).or(&has_false)` combination (theorems C10_mk_dnf_faithful_..., C10_mk_cnf_faithful_...);  to_dnf_faithful =
+   the explicit-stack loop with the mutable path vector, to_cnf_faithful = the recursion with the threaded path
+   (theorems C10_to_dnf_faithful_..., C10_to_cnf_faithful_...).  The mutable path pads itself with unset cells, so the vectors handed
+   out may carry trailing `None`s (C10_to_dnf_faithful_padding_example): the equation with the DFS list holds after
+   pv_trim, equivalently clause by clause under BddPartialValuation::eq (pv_eq). *)
 From Coq Require Import List NArith Bool. Import ListNotations.
-From BddVerif Require Import Model.Bdd Model.Apply Model.Ops Model.Paths Proofs.Sem Proofs.Canon Proofs.Reflect
-  Proofs.PvalSem Proofs.NormalForms Proofs.Paths.
+From BddVerif Require Import Model.Bdd Model.Apply Model.Ops Model.Paths Model.Valuation Model.Dnf Proofs.Sem Proofs.Canon
+  Proofs.Reflect Proofs.PvalSem Proofs.NormalForms Proofs.Paths Proofs.DnfSem.
 Open Scope N_scope.
 
 (* clause_sat v c: v satisfies the conjunction of the literals of c;  dclause_sat v c: their disjunction *)
@@ -100,3 +110,105 @@ Example C10_example : canonicalb ex10 = true /\
   mk_dnf 4 [[None; Some true; Some true]; [Some true; Some false; Some true]; [Some false; Some true; Some false]] = Ok ex10.
 Proof. vm_compute. repeat split. discriminate. Qed.
 Print Assumptions C10_example.
+
+(* ============================================================================================================== *)
+(* The library's own algorithms (Model/Dnf.v)                                                                      *)
+
+(* Bdd::mk_dnf's recursion: for clauses over the variable set no assertion fires, fuel suffices, and the result is the
+   canonical diagram of the disjunction of the clauses *)
+Theorem C10_mk_dnf_faithful_correct : forall nv cs, (forall c, In c cs -> cells_in_range nv c = true) ->
+  exists r, mk_dnf_faithful nv cs = Ok r /\ Canonical r /\ nvars r = nv /\
+            forall v, eval r v = existsb (clause_sat v) cs.
+Proof. exact mk_dnf_faithful_correct. Qed.
+Print Assumptions C10_mk_dnf_faithful_correct.
+
+(* ... hence the very array of the fold model *)
+Theorem C10_mk_dnf_faithful_eq_model : forall nv cs, (forall c, In c cs -> cells_in_range nv c = true) ->
+  mk_dnf_faithful nv cs = mk_dnf nv cs.
+Proof. exact mk_dnf_faithful_eq_model. Qed.
+Print Assumptions C10_mk_dnf_faithful_eq_model.
+
+(* panics: none inside the variable set; outside it the code as it is does NOT reject a clause (the base case calls
+   Bdd::mk_partial_valuation, which has no range assertion): a single clause is returned as a diagram whatever it mentions,
+   whereas the fold model (and BddVariableSet::mk_conjunctive_clause) panics — see C10_mk_dnf_faithful_out_of_range_example *)
+Theorem C10_mk_dnf_faithful_panic_only_out_of_range : forall nv cs,
+  mk_dnf_faithful nv cs = Panic -> exists c, In c cs /\ cells_in_range nv c = false.
+Proof. exact mk_dnf_faithful_panic_only_out_of_range. Qed.
+Print Assumptions C10_mk_dnf_faithful_panic_only_out_of_range.
+
+Theorem C10_mk_dnf_faithful_single : forall nv c, mk_dnf_faithful nv [c] = Ok (mk_partial_valuation nv c).
+Proof. exact mk_dnf_faithful_single. Qed.
+Print Assumptions C10_mk_dnf_faithful_single.
+
+(* Bdd::mk_cnf's recursion (its leaves go through the asserting mk_disjunctive_clause) *)
+Theorem C10_mk_cnf_faithful_correct : forall nv cs, (forall c, In c cs -> cells_in_range nv c = true) ->
+  exists r, mk_cnf_faithful nv cs = Ok r /\ Canonical r /\ nvars r = nv /\
+            forall v, eval r v = forallb (dclause_sat v) cs.
+Proof. exact mk_cnf_faithful_correct. Qed.
+Print Assumptions C10_mk_cnf_faithful_correct.
+
+Theorem C10_mk_cnf_faithful_panic_iff : forall nv cs,
+  mk_cnf_faithful nv cs = Panic <-> exists c, In c cs /\ cells_in_range nv c = false.
+Proof. exact mk_cnf_faithful_panic_iff. Qed.
+Print Assumptions C10_mk_cnf_faithful_panic_iff.
+
+(* the CNF recursion equals the fold model on EVERY input *)
+Theorem C10_mk_cnf_faithful_eq_model : forall nv cs, mk_cnf_faithful nv cs = mk_cnf nv cs.
+Proof. exact mk_cnf_faithful_eq_model. Qed.
+Print Assumptions C10_mk_cnf_faithful_eq_model.
+
+(* Bdd::to_dnf's stack machine on a valid diagram: terminates without panic and yields the DFS list, clause by clause in the
+   same order, up to the trailing unset cells of the mutable path vector *)
+Theorem C10_to_dnf_faithful_eq : forall b, wf b -> exists l, to_dnf_faithful b = Ok l /\ map pv_trim l = to_dnf b.
+Proof. exact to_dnf_faithful_eq. Qed.
+Print Assumptions C10_to_dnf_faithful_eq.
+
+Theorem C10_to_dnf_faithful_pv_eq : forall b, wf b ->
+  exists l, to_dnf_faithful b = Ok l /\ Forall2 (fun r c => pv_eq r c = true) l (to_dnf b).
+Proof. exact to_dnf_faithful_pv_eq. Qed.
+Print Assumptions C10_to_dnf_faithful_pv_eq.
+
+Theorem C10_to_cnf_faithful_eq : forall b, wf b -> exists l, to_cnf_faithful b = Ok l /\ map pv_trim l = to_cnf b.
+Proof. exact to_cnf_faithful_eq. Qed.
+Print Assumptions C10_to_cnf_faithful_eq.
+
+Theorem C10_to_cnf_faithful_pv_eq : forall b, wf b ->
+  exists l, to_cnf_faithful b = Ok l /\ Forall2 (fun r c => pv_eq r c = true) l (to_cnf b).
+Proof. exact to_cnf_faithful_pv_eq. Qed.
+Print Assumptions C10_to_cnf_faithful_pv_eq.
+
+(* end to end on the library's own algorithms: to_dnf() then mk_dnf() (to_cnf() then mk_cnf()) returns the identical array *)
+Theorem C10_dnf_faithful_roundtrip : forall b, Canonical b ->
+  exists l, to_dnf_faithful b = Ok l /\ mk_dnf_faithful (nvars b) l = Ok b.
+Proof. exact dnf_faithful_roundtrip. Qed.
+Print Assumptions C10_dnf_faithful_roundtrip.
+
+Theorem C10_cnf_faithful_roundtrip : forall b, Canonical b ->
+  exists l, to_cnf_faithful b = Ok l /\ mk_cnf_faithful (nvars b) l = Ok b.
+Proof. exact cnf_faithful_roundtrip. Qed.
+Print Assumptions C10_cnf_faithful_roundtrip.
+
+(* instances: the faithful machines on ex10 (duplicate clause, three-way split on x0 and x1); the padding of the path vector
+   (!x0 & x1 | x0: the second clause is handed out as [Some true; None]); behaviour outside the variable set *)
+Example C10_faithful_example :
+  to_dnf_faithful ex10 = Ok (to_dnf ex10) /\ to_cnf_faithful ex10 = Ok (to_cnf ex10) /\
+  mk_dnf_faithful 4 [[None; Some true; Some true]; [Some true; Some false; Some true]; [Some false; Some true; Some false];
+                     [Some true; Some false; Some true]] = Ok ex10 /\
+  mk_cnf_faithful 4 (to_cnf ex10) = Ok ex10.
+Proof. vm_compute. repeat split. Qed.
+Print Assumptions C10_faithful_example.
+
+Example C10_to_dnf_faithful_padding_example :
+  canonicalb ex_pad = true /\
+  to_dnf_faithful ex_pad = Ok [[Some false; Some true]; [Some true; None]] /\
+  to_dnf ex_pad = [[Some false; Some true]; [Some true]].
+Proof. exact to_dnf_faithful_padding. Qed.
+Print Assumptions C10_to_dnf_faithful_padding_example.
+
+Example C10_mk_dnf_faithful_out_of_range_example :
+  mk_dnf_faithful 1 [[None; Some true]] = Ok [mkNode 1 0 0; mkNode 1 1 1; mkNode 1 0 1] /\
+  mk_dnf 1 [[None; Some true]] = Panic /\
+  mk_dnf_faithful 1 [[None; Some true]; [None; Some false]] = Panic /\
+  mk_cnf_faithful 1 [[None; Some true]] = Panic.
+Proof. exact mk_dnf_faithful_out_of_range. Qed.
+Print Assumptions C10_mk_dnf_faithful_out_of_range_example.
